@@ -68,6 +68,13 @@ func (ex *Exec) heapGet(st *State, name string, sort Sort) T {
 		sym = fmt.Sprintf("%s!e%dm%d", sanitize(name), ep, st.mepoch)
 	}
 	c := ex.vc.constant(sym, sort)
+	if ex.P.immutNonNil[name] && ep == 0 && !ex.vc.declSet["ax:nonnil:"+sym] {
+		// object invariant of a never-nil immutable field: it holds for every object that existed when this function
+		// was entered (established by the constructing function, see nonNilCheckpoint; never written afterwards)
+		ex.vc.declSet["ax:nonnil:"+sym] = true
+		ex.vc.axiom(fmt.Sprintf("(forall ((r!z Int)) (! (=> (and (< 0 r!z) (<= r!z ghost.alloc!0)) (not (= (select %s r!z) 0))) :pattern ((select %s r!z))))", c.s, c.s))
+		ex.vc.assumed["object invariant: a field declared `immutable T: f!` is non-nil on every object that exists at function entry (checked where such objects are constructed)"] = true
+	}
 	return c
 }
 
@@ -459,8 +466,49 @@ func (ex *Exec) recordWrite(st *State, heap string, ref T) {
 		ex.nimm++
 		ex.vc.oblige("immut", fmt.Sprintf("immut:%s:%s:%d", ex.conName(), heap, ex.nimm), st.guard, Gt(ref, ex.ghostGet(ex.entry, "alloc")), ex.pos(token.NoPos)).SetNote("field declared immutable is written only on objects allocated by this call")
 	}
+	if ex.P.immutNonNil[heap] && ex.con != nil && !waived {
+		ex.nonNilPending = append(ex.nonNilPending, nonNilWrite{heap, st.guard, ref})
+	}
 	if ex.onWrite != nil {
 		ex.onWrite(st, heap, ref)
+	}
+}
+
+type nonNilWrite struct {
+	heap  string
+	guard T
+	ref   T
+}
+
+// nonNilCheckpoint: wherever control leaves the function (a call, a return) every object on which this function has
+// written a never-nil immutable field holds a non-nil value there.
+func (ex *Exec) nonNilCheckpoint(st *State, where string, pos token.Pos) {
+	ex.nonNilCheckpointFor(st, where, pos, nil)
+}
+
+// only: when non-nil, check just the objects whose reference is one of these terms (the ones handed to a callee)
+func (ex *Exec) nonNilCheckpointFor(st *State, where string, pos token.Pos, only []string) {
+	if ex.con == nil || ex.inlineDepth > 0 {
+		return
+	}
+	for i, w := range ex.nonNilPending {
+		if only != nil {
+			hit := false
+			for _, o := range only {
+				if o == w.ref.s {
+					hit = true
+				}
+			}
+			if !hit {
+				continue
+			}
+		}
+		srt, ok := ex.heapR.sorts[w.heap]
+		if !ok {
+			continue
+		}
+		h := ex.heapGet(st, w.heap, srt)
+		ex.vc.oblige("immut", fmt.Sprintf("immut-nonnil:%s:%s:%s:%d", ex.conName(), w.heap, where, i+1), And(st.guard, w.guard), Not(Eq(Select(h, w.ref), IntLit(0))), ex.pos(pos)).SetNote("a never-nil immutable field (`f!`) holds a value whenever control leaves the function that writes it")
 	}
 }
 
